@@ -50,6 +50,14 @@ class Reject(Exception):
 _TAGS = collections.Counter()
 
 
+_EXTRA = {"evaluations": 0}
+
+
+def add_evaluations(n):
+    """executions performed inside one check beyond the case itself (e.g. a fuzzing campaign's runs)"""
+    _EXTRA["evaluations"] += int(n)
+
+
 def tag(name):
     """Classify the current case (class histogram in the evidence)."""
     _TAGS[str(name)] += 1
@@ -271,6 +279,8 @@ def _run_shard(modname, subname, tier, seed, shard, nshards, known, budget_s):
             _run_hypothesis(sub, tier, seed, shard, account, handle, swallowed, res, t0, budget_s)
     except Exception as exc:  # noqa: BLE001
         res["error"] = "".join(traceback.format_exception(type(exc), exc, exc.__traceback__))[-4000:]
+    res["evaluations"] += _EXTRA["evaluations"]
+    _EXTRA["evaluations"] = 0
     res["hashes"] = sorted(hashes)
     res["samples"] = [json.loads(canon(s)) for s in samples]
     res["tags"] = dict(_TAGS)
